@@ -2,6 +2,7 @@ package main
 
 import (
 	"bufio"
+	"path/filepath"
 	"encoding/base64"
 	"encoding/json"
 	"flag"
@@ -123,7 +124,7 @@ func convertEvent(f *os.File, label, chain string, format int, text string, orig
 	emitJSON(f, ev)
 }
 
-func caseC13(r *rand.Rand, f *os.File, label string, maxTips int) {
+func caseC13(r *rand.Rand, f *os.File, label string, maxTips int, cli *cliEnv) {
 	pal := &palette{vals: []float64{0.5, 1, 0.25, 2.75, 0.1, 1e-5, 12.5, 0.33, 100, 3}}
 	k := 1 + r.Intn(6)
 	if r.Intn(12) == 0 {
@@ -143,6 +144,47 @@ func caseC13(r *rand.Rand, f *os.File, label string, maxTips int) {
 		ts = append(ts, fromD(d, pal))
 	}
 	// PhyloXML carries a support only together with ... any inner clade, names on every node; p-values are not carried
+	if cli != nil && r.Intn(3) == 0 {
+		// the same conversions through the commands: newick file -> reformat <fmt> -> file -> read back with --format <fmt>
+		var sb strings.Builder
+		for _, t := range ts {
+			sb.WriteString(t.Newick() + "\n")
+		}
+		in := cli.file("conv.nw", sb.String())
+		switch r.Intn(3) {
+		case 0:
+			out, rc, _ := cli.run("reformat", "nexus", "-i", in)
+			if rc == 0 {
+				convertEvent(f, label, "cli-nexus", utils.FORMAT_NEXUS, out, orig, pal, true)
+				nx := cli.file("conv.nex", out)
+				back, rc2, _ := cli.run("reformat", "newick", "-i", nx, "--format", "nexus")
+				if rc2 == 0 {
+					convertEvent(f, label, "cli-nexus-newick", utils.FORMAT_NEWICK, back, orig, pal, true)
+				}
+			}
+		case 1:
+			out, rc, _ := cli.run("reformat", "nexus", "--translate", "-i", in)
+			if rc == 0 {
+				convertEvent(f, label, "cli-nexus-translate", utils.FORMAT_NEXUS, out, orig, pal, true)
+			}
+		default:
+			out, rc, _ := cli.run("reformat", "phyloxml", "-i", in)
+			if rc == 0 {
+				convertEvent(f, label, "cli-phyloxml", utils.FORMAT_PHYLOXML, out, orig, pal, false)
+				px := cli.file("conv.xml", out)
+				back, rc2, _ := cli.run("reformat", "newick", "-i", px, "--format", "phyloxml")
+				if rc2 == 0 {
+					convertEvent(f, label, "cli-phyloxml-newick", utils.FORMAT_NEWICK, back, orig, pal, false)
+				}
+			}
+		}
+		return
+	}
+	if r.Intn(6) == 0 {
+		// the single-tree Nexus writer of the tree itself
+		convertEvent(f, label, "tree-nexus", utils.FORMAT_NEXUS, ts[0].Nexus(), orig[:1], pal, true)
+		return
+	}
 	switch r.Intn(4) {
 	case 0: // Newick stream with blank lines, trees spanning lines
 		var sb strings.Builder
@@ -506,16 +548,26 @@ func init() {
 		to := fs.Int("to", 10, "")
 		maxT := fs.Int("maxtips", 20, "")
 		out := fs.String("out", "trace.ndjson", "")
+		bin := fs.String("gotree", "", "gotree binary (command-line conversions)")
 		fs.Parse(args)
 		f, err := os.Create(*out)
 		if err != nil {
 			fatal("%v", err)
 		}
 		defer f.Close()
+		var cli *cliEnv
+		if *bin != "" {
+			dir, err := os.MkdirTemp(filepath.Dir(*out), "conv")
+			if err != nil {
+				fatal("%v", err)
+			}
+			defer os.RemoveAll(dir)
+			cli = &cliEnv{bin: *bin, dir: dir}
+		}
 		restore := silenceStderr()
 		for k := *from; k < *to; k++ {
 			s := *seed*1000003 + int64(k)
-			caseC13(rand.New(rand.NewSource(s)), f, fmt.Sprintf("C13-s%d-k%d", *seed, k), *maxT)
+			caseC13(rand.New(rand.NewSource(s)), f, fmt.Sprintf("C13-s%d-k%d", *seed, k), *maxT, cli)
 		}
 		restore()
 		summary(map[string]interface{}{"events": *to - *from})
